@@ -1,6 +1,7 @@
 import Driver.Util
 import Chokan.Model.Romaji
 import Chokan.Gen.Romaji
+import Driver.DicOps
 
 namespace Driver
 open Chokan
@@ -19,8 +20,9 @@ def romaOps (op : String) (arg : String) : Option String :=
 
 def handle (line : String) : String :=
   let (op, arg) := splitOp line
-  match romaOps op arg with
-  | some r => r
+  let r := (romaOps op arg).orElse fun _ => dicOps op arg
+  match r with
+  | some r => r.trimAsciiEnd.toString
   | none => "bad-op"
 
 end Driver
